@@ -555,8 +555,10 @@ theorem kids_fix (g : Graph) (hw : WellFormed g) (g' : Graph) (ordF : List Nat)
                   rw [hord1, pos_append_of_mem (by simp : b.tid ∈ ord ++ [b.tid])]; exact hpos_t
                 have hkt2 : kindAt s2.graph (pos ord1 b.tid) = some (enterKind a tatom.kind tatom.bonds).invert := by
                   rw [hpx, brun_kindAt hrun1 (by rw [hlen1, hg0]; omega), ← hg0]; exact hkind1
+                have hpa : pos ord1 a < pos ord1 b.tid := by
+                  rw [hpx, hord1, List.append_assoc, pos_append_of_mem ha]; exact pos_lt_of_mem ha
                 have hdone_t : Done g s2.graph ord1 proc2 b.tid :=
-                  ⟨a, tatom, back, ha1, htat, hback, by rw [hp2t, procAt_all], hkt2⟩
+                  ⟨a, tatom, back, ⟨ha1, hpa⟩, htat, hback, by rw [hp2t, procAt_all], hkt2⟩
                 refine ⟨s3, b.tid :: new1 ++ new2, proc3, hrun, hord2', ⟨C2, by rw [hst3, hpos_a1], hC2⟩, hinv3,
                   by rw [hp3a]; simp, ?_, ?_, hordF3, hkeys3, ?_⟩
                 · intro x hx hxa
